@@ -10,6 +10,8 @@ rac:   programs and their reordered variants on the real assembler, chains of de
 """
 import z3
 from contracts.common import *  # noqa
+from contracts import structure
+from contracts.structure import *  # noqa
 from contracts import common, symbols_c, deferred_c, c05
 from contracts.symbols_c import *  # noqa
 from contracts.deferred_c import *  # noqa
@@ -136,6 +138,8 @@ def units(tier):
     for name, fn, kw in deferred_c.all_units():
         if name.startswith("poly") or name in ("wait-chain", "promise"):
             us.append((name, fn, kw))
+    # whole programs: the statement holds wherever a statement stands (repeat body, included / linked file, any block) - contracts/structure.py
+    us += structure.units()
     return us
 
 
@@ -147,6 +151,9 @@ def canary(eng):
 
 
 def replay(o, tree):
+    r_ = structure.replay(o, tree)
+    if r_ is not None:
+        return r_
     import os
     if o.get("unit") == "use-positions-rac":
         return None          # evaluated on the real assembler already: the failing use is in the obligation's detail
